@@ -23,7 +23,7 @@ RULE = (
     "independent container parser return exactly the reference model's list (records whose write returned normally + "
     "donor records), header bytes unchanged since creation; after EVERY operation block_count equals the number of records "
     "the independent decoder finds in the pending buffer (consuming it exactly). Breadth-first with state merging: states = "
-    "distinct canonical (file bytes, pending bytes, block_count, every Writer field its methods read, model list, step counter) "
+    "distinct canonical (file bytes and cursor, pending bytes and cursor, block_count, every Writer field its methods read, model list, step counter) "
     "tuples; transitions = operations applied (each to a representative history of its source state)."
 )
 ASSUMPTIONS = [
@@ -117,8 +117,11 @@ class World:
             self.fo = open(self.path, "w+b")
         else:
             self.fo = io.BytesIO()
+        # the caller's metadata dict was used for another file (other codec, other schema) just before
+        meta = {"origin": "created"}
+        Writer(io.BytesIO(), copy.deepcopy(S_OTHER), codec="deflate" if self.codec != "deflate" else "null", metadata=meta, sync_marker=b"o" * 16)
         self.w = Writer(self.fo, copy.deepcopy(self.schema), codec=self.codec, sync_interval=self.interval,
-                        validator=self.validator, sync_marker=self.marker, metadata={"origin": "created"})
+                        validator=self.validator, sync_marker=self.marker, metadata=meta)
         self.model = []
         self.counter = 0
         self.header = None
@@ -212,7 +215,8 @@ class World:
 
     def state_key(self):
         w = self.w
-        return key((self.contents() if not self.on_file else (self.contents(), self.fo.tell()), self.pending(), w.block_count, [repr(m) for m in self.model], self.counter,
+        # stream cursors are state too: a write lands where the cursor is
+        return key((self.contents(), self.fo.tell(), self.pending(), w.io._fo.tell(), w.block_count, [repr(m) for m in self.model], self.counter,
                     getattr(w.block_writer, "__name__", repr(w.block_writer)), w.sync_marker, w.sync_interval, w.compression_level,
                     bool(w.validate_fn), repr(sorted((k, v) for k, v in w.schema.items() if not k.startswith("__")) if isinstance(w.schema, dict) else w.schema),
                     sorted(w._named_schemas), repr(sorted(w.options.items()))))
